@@ -206,20 +206,43 @@ def rule_split(ctx: Ctx, repo: Repo) -> None:
     mod = R("module", body=K(()))
     k, res = sc.result({"self": S("self"), ab.positional_params()[1]: mod})
     ctx.check(k == "return" and res == mod, "R-C16.4", ab.fq, "with nothing to move no (empty, invalid) TYPE_CHECKING block is added", construct=f"{k} {str(res)[:80]}")
-    # the TYPE_CHECKING import itself
+    # the TYPE_CHECKING import itself: _add_type_checking_import interpreted (helpers inlined)
     at = repo.fn(TCI, "MoveImportsToTypeCheckingBlockVisitor._add_type_checking_import")
-    cs = [c for c in calls_in(at.node) if isinstance(c.func, ast.Attribute) and c.func.attr == "add_needed_import"]
-    ok = len(cs) == 1 and [norm(a) for a in cs[0].args[1:]] == ["'typing'", "'TYPE_CHECKING'"]
-    ctx.check(ok, "R-C16.4", at.fq, "`from typing import TYPE_CHECKING` is added", construct="; ".join(norm(c) for c in cs))
-    g = cfg_of(at)
-    for c in cs:
-        n = g.node_of(c)
-        tr_calls = g.find_calls(lambda x: isinstance(x.func, ast.Attribute) and x.func.attr == "transform_module")
-        uncond = n is not None and not g.guards(n.id) and g.dominates(n.id, g.exit) and all(g.dominates(n.id, m.id) for m, _ in tr_calls) and bool(tr_calls)
-        ctx.check(uncond, "R-C16.4", at.fq,
-                  "the TYPE_CHECKING import is requested on every path (libcst's AddImportsVisitor puts it into the leading import block and does not duplicate it; "
-                  "skipping it because the name is imported somewhere else, e.g. inside a try block further down, leaves the new block above the binding)",
-                  construct=f"guards {[(norm(a.ast), p) for a, p in g.guards(n.id)] if n else '?'}")
+    ctx.functions.add(at.fq)
+    eff: List[Tuple[Any, ...]] = []
+
+    def hook_tc(call, fname, fval, args, kwargs, st, _e=eff):
+        d = fname or ""
+        m = call.func.attr if isinstance(call.func, ast.Attribute) else None
+        if d == "CodemodContext":
+            return R("context", n=K(len([e for e in _e if e[0] == "ctx"]))) if not _e.append(("ctx",)) else None
+        if d.endswith("add_needed_import"):
+            _e.append(("need", tuple(st.freeze(a) for a in args), tuple(sorted((k, st.freeze(v)) for k, v in kwargs.items()))))
+            return K(None)
+        if d == "AddImportsVisitor":
+            return R("visitor", what=K("add-imports"), context=st.freeze(args[0]) if args else kwargs.get("context", K(None)))
+        if m == "transform_module" and isinstance(fval, R) and fval.kind == "visitor":
+            _e.append(("transform", fval, st.freeze(args[0])))
+            return R("transformed", by=fval, of=st.freeze(args[0]))
+        return None
+
+    sc = CliScenario(repo, TCI, "MoveImportsToTypeCheckingBlockVisitor._add_type_checking_import", hook=hook_tc)
+    src = R("module", of=S("source"))
+    try:
+        k, res = sc.result({p: src for p in at.positional_params()[-1:]} | ({"self": S("self")} if at.positional_params()[0] == "self" else {}))
+        needs = [e for e in eff if e[0] == "need"]
+        trs = [e for e in eff if e[0] == "transform"]
+        ok_need = len(needs) == 1 and (list(needs[0][1][1:]) + [v for _, v in needs[0][2] if not isinstance(v, R)])[:2] == [K("typing"), K("TYPE_CHECKING")]
+        ctx.check(ok_need, "R-C16.4", at.fq, "`from typing import TYPE_CHECKING` is added", construct=f"{needs}"[:200])
+        ok_seq = ok_need and len(trs) == 1 and eff.index(needs[0]) < eff.index(trs[0]) and trs[0][1].fields["context"] == needs[0][1][0] and trs[0][2] == src \
+            and k == "return" and res == R("transformed", by=trs[0][1], of=src)
+        why = f"{[e[0] for e in eff]}, result {k} {str(res)[:80]}"
+    except AnalysisError as e:
+        ok_seq, why = False, f"the request depends on a condition: {e}"
+    ctx.check(ok_seq, "R-C16.4", at.fq,
+              "the TYPE_CHECKING import is requested on every path (libcst's AddImportsVisitor puts it into the leading import block and does not duplicate it; "
+              "skipping it because the name is imported somewhere else, e.g. inside a try block further down, leaves the new block above the binding)",
+              construct=why)
 
 
 def rule_cli(ctx: Ctx, repo: Repo) -> None:
